@@ -362,11 +362,23 @@ def max_len(scn):
     return max(n, len(json.dumps(b['outcome'], default=repr))) + 800
 
 
+def all_scenarios():
+    """the hand-picked deviated scenarios plus EVERY response template of C02 undeviated (all
+    operation families, successful query operations whose results carry no path included)"""
+    have = {json.dumps(list(s)) for s in SCENARIOS}
+    out = list(SCENARIOS)
+    for op, name in sorted(R.templates()):
+        s = (op, name, None)
+        if json.dumps(list(s)) not in have:
+            out.append(s)
+    return out
+
+
 def cases(tier):
-    for scn in SCENARIOS:
+    for scn in all_scenarios():
         for cfg in named_configs():
             yield list(scn), cfg
-    intscn = MULTIBYTE if tier == 'quick' else SCENARIOS
+    intscn = MULTIBYTE if tier == 'quick' else all_scenarios()
     for scn in intscn:
         R_ = max_len(scn)
         for n in range(0, R_ + 3):
